@@ -2,7 +2,8 @@
 # Self-test of the rules: every patch under /verif/mutants/<property>/ breaks exactly one
 # rule instance and still compiles; it is applied to a scratch worktree of /repo's current
 # HEAD+working tree, the property's check is run against the scratch copy (no evidence
-# written) and must report a VIOLATION.  Patches that no longer apply are counted as
+# written) and must report a VIOLATION.  Patches under /verif/equivalents/<property>/ are
+# behaviour-preserving rewrites of the same constructs and must NOT be reported.  Patches that no longer apply are counted as
 # skipped.  Usage: selftest.sh [property ...]   (default: all)
 set -u
 export GOFLAGS=-mod=mod GOPROXY=off GOSUMDB=off GOTOOLCHAIN=local; unset GOWORK
@@ -30,5 +31,18 @@ for p in "${props[@]}"; do
     git -C "$WT" checkout -q -- . ; git -C "$WT" clean -qfd
   done
 done
+# behaviour-preserving variants: /verif/equivalents/<property>/*.diff must stay silent
+eq=0; falsealarms=()
+for p in "${props[@]}"; do
+  for m in "$VERIF/equivalents/$p"/*.diff; do
+    [ -f "$m" ] || continue
+    if ! git -C "$WT" apply --check "$m" 2>/dev/null; then skipped=$((skipped+1)); echo "SKIP-EQ $p $(basename $m) (does not apply)"; continue; fi
+    git -C "$WT" apply "$m"; eq=$((eq+1))
+    out=$("$VERIF/bin/verifcheck" -property "$p" -repo "$WT" -verif "$VERIF" -no-evidence 2>&1); rc=$?
+    if [ $rc -eq 0 ]; then echo "SILENT $p $(basename $m)"; else falsealarms+=("$p/$(basename $m)"); echo "FALSE-ALARM $p $(basename $m) (rc=$rc) $(grep -B1 '^VIOLATION' <<<"$out" | head -1 | cut -c1-300)"; fi
+    git -C "$WT" checkout -q -- . ; git -C "$WT" clean -qfd
+  done
+done
+echo "selftest: equivalents=$eq false_alarms=${#falsealarms[@]} ${falsealarms[*]:-}"
 echo "selftest: applied=$applied detected=$detected skipped=$skipped missed=${#missed[@]} ${missed[*]:-}"
-[ ${#missed[@]} -eq 0 ]
+[ ${#missed[@]} -eq 0 ] && [ ${#falsealarms[@]} -eq 0 ]
